@@ -128,6 +128,13 @@ def run(prop, tier):
         extra_eval = hash_seeds(rep, gs, seeds)
         extra["hashseed_comparisons"] = extra_eval
         extra["hashseeds"] = seeds
+    if prop in ("C01", "C02", "C03", "C16"):
+        from . import large
+        lc = large.collect(prop, tier, rep)
+        extra["large_graphs"] = lc
+        extra_eval += lc.get("partners", 0)
+        tot["states"] += lc.get("states", 0)
+        tot["generated"] += lc.get("generated", 0)
     if prop == "C06":
         from . import edit
         ecov = edit.collect("C06", tier, rep)
